@@ -58,9 +58,14 @@ impl<C: CellType> BcInterpreter<C> {
                 if let Instr::BrZ(_, _) | Instr::BrNZ(_, _) = inst {
                     emit_limit(&mut insts, 1);
                 }
-                if let Instr::Scan(_, shift) = inst {
+                if let Instr::Scan(cond, shift) = inst {
                     if shift == 0 {
+                        // A stationary scan runs forever, but only if it is entered.
+                        let start = insts.len();
+                        emit(&mut insts, Instr::BrZ(cond, 0), safe);
                         emit_limit(&mut insts, usize::MAX);
+                        let skip = (insts.len() - start) as isize;
+                        adjust_branch(&mut insts[start..], skip);
                     }
                 }
             }
